@@ -55,8 +55,11 @@ def gen_type(rnd, names, depth, want=None):
 
 
 def gen_func(rnd, names, depth):
-    args = [gen_type(rnd, names, depth) for _ in range(rnd.randrange(0, 3))]
-    rets = [gen_type(rnd, names, depth) for _ in range(rnd.randrange(0, 3))]
+    def tup():
+        # an argument / result may carry a name (documentation only, but the names of one tuple must be distinct)
+        return [((rnd.choice(["x", "y", "x", "amount"]) if rnd.random() < 0.3 else None), gen_type(rnd, names, depth))
+                for _ in range(rnd.randrange(0, 3))]
+    args, rets = tup(), tup()
     modes = rnd.choice([[], [], ["query"], ["oneway"], ["composite_query"], ["query", "oneway"], ["query", "query"]])
     return ("func", args, rets, modes)
 
@@ -96,7 +99,8 @@ def show(t, in_service=False):
     if k in ("record", "variant"):
         return k + " { " + "; ".join(show_label(l) + show(x) for l, x in t[1]) + " }"
     if k == "func":
-        sig = "(" + ", ".join(show(a) for a in t[1]) + ") -> (" + ", ".join(show(r) for r in t[2]) + ")" + "".join(" " + m for m in t[3])
+        tup = lambda xs: "(" + ", ".join((n + " : " if n else "") + show(a) for n, a in xs) + ")"   # noqa: E731
+        sig = tup(t[1]) + " -> " + tup(t[2]) + "".join(" " + m for m in t[3])
         return sig if in_service else "func " + sig
     ms = "; ".join((nm if " " not in nm else '"' + nm + '"') + " : " + (show(x, True) if x[0] == "func" else show(x)) for nm, x in t[1])
     return "service { " + ms + " }" if not in_service else "{ " + ms + " }"
@@ -130,8 +134,12 @@ def wf_type(t, defs):
                 return False
         return len(set(ids)) == len(ids)
     if k == "func":
-        if not all(wf_type(a, defs) for a in t[1] + t[2]):
+        if not all(wf_type(a, defs) for _, a in t[1] + t[2]):
             return False
+        for tup in (t[1], t[2]):
+            named = [n for n, _ in tup if n]
+            if len(set(named)) != len(named):
+                return False
         if len(t[3]) > 1:
             return False
         return not (t[3] == ["oneway"] and t[2])
